@@ -115,9 +115,21 @@ def read_a(env, case, img, exp, st):
     bad = []
     devblk = case.get("opts", {}).get("B") or 4096
     val, par = c03.describe(env.ctx, env.unz, G.s(img), devblk)
+    summary = None
     for v in val:
         if v.startswith("viol ") or v.startswith("layout-model "):
             bad.append(("a", "validate", "", v[:300]))
+        elif v.startswith("summary "):
+            summary = dict(kv.split("=", 1) for kv in v.split()[1:] if "=" in kv)
+    # the validator must have answered, must have seen every compressed data block unpacked by unz (`unz -b` ran to the end) and
+    # must have scanned as many inodes as the input has link groups
+    if summary is None:
+        bad.append(("a", "helper", "", "sqfsmodel c03 validate printed no summary line (%d lines)" % len(val)))
+    else:
+        if summary.get("data_unverified") != "0":
+            bad.append(("a", "helper", "", "validator could not check %s data blocks (unz -b did not deliver them)" % summary.get("data_unverified")))
+        if not bad and summary.get("inodes") != str(len(set(e.grp for e in exp.values()))):
+            bad.append(("a", "inode-count", "", "image has %s inodes, the input %d (distinct hard-link groups)" % (summary.get("inodes"), len(set(e.grp for e in exp.values())))))
     got, sup, frags = {}, None, []
     for l in par:
         try:
@@ -173,6 +185,8 @@ def read_a(env, case, img, exp, st):
                 bad.append(("a", "hardlink-split", G.s(p), "inode %d but %s has inode %d" % (i, G.s(e.grp), ino_of_grp[e.grp])))
             if grp_of_ino.setdefault(i, e.grp) != e.grp:
                 bad.append(("a", "hardlink-merged", G.s(p), "shares inode %d with %s" % (i, G.s(grp_of_ino[i]))))
+            if gsz[e.grp] > 1:
+                st["a_link_names"] = st.get("a_link_names", 0) + 1
         gx = o.get("xattrs")
         if not isinstance(gx, list):
             bad.append(("a", "xattrs", G.s(p), "xattrs unreadable: %r" % (gx,)))
@@ -215,6 +229,11 @@ def read_a(env, case, img, exp, st):
                 bad.append(("a", "content", G.s(p), "cannot rebuild the file from the image: %s" % ex)); continue
             st["a_files"] = st.get("a_files", 0) + 1
             st["a_bytes"] = st.get("a_bytes", 0) + o["size"]
+            if o["size"] >= 1 << 32:
+                st["a_files_4g"] = st.get("a_files_4g", 0) + 1
+            fr = o.get("frag")
+            if (o["blocks"] and o["start"] >= 1 << 32) or (fr and fr[0] != U32 and fr[0] < len(frags) and frags[fr[0]][0] >= 1 << 32):
+                st["a_starts_4g"] = st.get("a_starts_4g", 0) + 1
             if h != G.content_hash(e.content):
                 bad.append(("a", "content", G.s(p), "bytes rebuilt from the image differ from the input (size %d, %d block words, frag %s)" % (o["size"], len(o["blocks"]), o.get("frag"))))
         if size:
@@ -334,8 +353,16 @@ def split_desc_line(line):
 def read_b(env, case, img, exp, st):
     bad = []
     if any(b"\n" in p or (e.type == "slink" and b"\n" in e.target) for p, e in exp.items()):
-        st["b_skipped"] = "a name or target contains a line feed: the line based description cannot hold it (C16 excludes LF as well)"
+        # a line feed cannot be written into the line based listing: rdsquashfs -d refuses such a tree (by design, /repo 4b35342;
+        # C16 excludes LF as well).  That refusal is checked; the nodes are compared on the other paths.
+        rc, out, err = run([env.rd, "-d", img], env.san)
+        if crashed(rc, err):
+            return [("b", "crash", "", "rdsquashfs -d: rc=%s %s" % (rc, san_summary(err)))]
+        if rc == 0 or not err.strip():
+            return [("b", "describe-lf", "", "rdsquashfs -d exits %s %s a diagnostic on a tree with a line feed in a name or target" % (rc, "with" if err.strip() else "without"))]
+        st["b_skipped"] = "a name or target contains a line feed: rdsquashfs -d refuses the tree (checked)"
         return bad
+    lf_names = False
     rc, out, err = run([env.rd, "-d", img], env.san)
     if crashed(rc, err):
         return [("b", "crash", "", "rdsquashfs -d: rc=%s %s" % (rc, san_summary(err)))]
@@ -347,16 +374,23 @@ def read_b(env, case, img, exp, st):
             continue
         f = split_desc_line(line)
         if not f or len(f) < 5 or f[0] not in (b"dir", b"file", b"slink", b"nod", b"pipe", b"sock"):
+            if lf_names:
+                continue
             bad.append(("b", "describe-syntax", "", "line cannot be read back as a pack file line: %r" % line[:120])); continue
         p = b"/" + f[1].strip(b"/")
         try:
             rec = {"kind": f[0].decode(), "mode": int(f[2], 8), "uid": int(f[3]), "gid": int(f[4]), "extra": f[5:]}
         except ValueError:
-            bad.append(("b", "describe-syntax", G.s(p), "numbers unreadable in %r" % line[:120])); continue
+            if not lf_names:
+                bad.append(("b", "describe-syntax", G.s(p), "numbers unreadable in %r" % line[:120]))
+            continue
         if p in got:
             bad.append(("b", "duplicate-path", G.s(p), "described twice"))
         got[p] = rec
     for p, e in exp.items():
+        if b"\n" in p:
+            st["b_lf_nodes"] = st.get("b_lf_nodes", 0) + 1
+            continue
         o = got.get(p)
         if o is None:
             bad.append(("b", "missing", G.s(p), "not described")); continue
@@ -375,7 +409,7 @@ def read_b(env, case, img, exp, st):
             bad.append(("b", "describe-syntax", G.s(p), "unexpected extra tokens %r" % (x[:3],)))
         bad += [("b", c, G.s(p), d) for c, d in cmp_fields(e, None, o["mode"], o["uid"], o["gid"], None, target, dev, None)]
     for p in got:
-        if p not in exp:
+        if p not in exp and not lf_names:
             bad.append(("b", "unexpected", G.s(p), "described but not in the input"))
     return bad
 
@@ -453,7 +487,7 @@ def size_matches(txt, n):
     if not m:
         return False
     unit = 1024 ** (b"kMGTPE".index(m.group(2)) + 1)
-    return abs(int(m.group(1)) * unit - n) <= unit
+    return int(m.group(1)) in (n // unit, -(-n // unit)) and n > unit // 1
 
 
 STAT_TYPES = {"directory": "dir", "file": "file", "symbolic link": "slink", "block device": "bdev", "character device": "cdev",
@@ -655,6 +689,7 @@ def read_e(env, case, img, exp, wd, st):
     if rc != 0:
         return [("e", "reader-failed", "", "rdsquashfs -u failed (%d): %s" % (rc, err[-300:].decode("latin-1")))]
     st["e_flags"] = " ".join(fl)
+    st["e_planned"] = sum(1 for p, e in exp.items() if p != b"/" and not ("-D" in fl and e.type in ("cdev", "bdev")) and not ("-L" in fl and e.type == "slink"))
     seen = set()
     for dp, dns, fns in os.walk(dst):
         for nme in dns + fns:
